@@ -12,6 +12,7 @@ modes:  unparse   -- every module is replaced by ast.unparse(ast.parse(src))
                      result_x'
         noop-first -- a no-op expression statement at the start of every
                      function body
+        fstring   -- '...%s' % x becomes an f-string where that is safe
         swap      -- adjacent independent assignments with call-free
                      right-hand sides change places
 """
@@ -19,7 +20,7 @@ import ast
 import os
 
 MODES = ("unparse", "rename", "rename-some-1", "if-invert", "extract-return",
-         "noop-first", "swap")
+         "noop-first", "swap", "fstring")
 
 
 class Renamer(ast.NodeTransformer):
@@ -174,6 +175,54 @@ class NoopInserter(ast.NodeTransformer):
         return node
 
 
+class FStringer(ast.NodeTransformer):
+    """'...%s...' % (a, b)  ->  f'...{a}...{b}'   (only %s / %d / %r / %%,
+    tuple literal or a single non-tuple-looking operand)"""
+
+    def visit_BinOp(self, node):
+        self.generic_visit(node)
+        if not (isinstance(node.op, ast.Mod) and
+                isinstance(node.left, ast.Constant) and
+                isinstance(node.left.value, str)):
+            return node
+        import re as _re
+        fmt = node.left.value
+        specs = _re.findall(r"%(.)", fmt)
+        if not specs or any(c not in "sdr%" for c in specs):
+            return node
+        n = sum(1 for c in specs if c != "%")
+        if isinstance(node.right, ast.Tuple):
+            args = list(node.right.elts)
+        elif isinstance(node.right, (ast.Call, ast.Attribute, ast.Constant,
+                                     ast.BinOp, ast.Subscript)):
+            args = [node.right]
+        else:
+            return node
+        if len(args) != n or any(isinstance(a, ast.Starred) for a in args):
+            return node
+        if "{" in fmt or "}" in fmt or "\\" in fmt:
+            return node
+        parts = _re.split(r"(%.)", fmt)
+        values = []
+        it = iter(args)
+        for part in parts:
+            if part == "%%":
+                values.append(ast.Constant("%"))
+            elif part in ("%s", "%d", "%r"):
+                a = next(it)
+                # nested quotes inside f-strings need 3.12; keep it simple
+                if any(isinstance(x, ast.Constant) and isinstance(
+                        x.value, str) for x in ast.walk(a)):
+                    return node
+                conv = ord("r") if part == "%r" else -1
+                spec = ast.JoinedStr([ast.Constant("d")]) \
+                    if part == "%d" else None
+                values.append(ast.FormattedValue(a, conv, spec))
+            elif part:
+                values.append(ast.Constant(part))
+        return ast.JoinedStr(values)
+
+
 def rewrite(mode, tmp):
     root = os.path.join(tmp, "src", "chameleon")
     for dp, dn, fns in os.walk(root):
@@ -192,6 +241,8 @@ def rewrite(mode, tmp):
                 tree = ast.fix_missing_locations(Swapper().visit(tree))
             elif mode == "noop-first":
                 tree = ast.fix_missing_locations(NoopInserter().visit(tree))
+            elif mode == "fstring":
+                tree = ast.fix_missing_locations(FStringer().visit(tree))
             elif mode == "if-invert":
                 tree = ast.fix_missing_locations(IfInverter().visit(tree))
             elif mode.startswith("rename-some"):
